@@ -141,7 +141,7 @@ impl Property for C20 {
         384
     }
     fn required_counters(&self) -> Vec<&'static str> {
-        vec!["placements", "walks", "fault_unreadable_reached", "fault_dangling_reached", "fault_reentrant_reached", "fault_at_base", "fault_last_child", "two_faults", "fault_beneath_discarded_tree", "fault_with_stack", "io_error_conversions"]
+        vec!["placements", "prefixed_glob_walks", "walks", "fault_unreadable_reached", "fault_dangling_reached", "fault_reentrant_reached", "fault_at_base", "fault_last_child", "two_faults", "fault_beneath_discarded_tree", "fault_with_stack", "io_error_conversions"]
     }
     fn decode(&self, t: &mut Tape) -> Case {
         let tree = gen_tree(t, &TreeCfg { max_entries: 14, ..TreeCfg::default() });
@@ -167,7 +167,25 @@ impl Property for C20 {
                 }
             }
         }
-        let under = if t.chance(150) { Under::Path } else { gen_under(t, &tree, &Base::Abs) };
+        let under = match t.weighted(&[35, 35, 30]) {
+            0 => Under::Path,
+            1 => {
+                // a glob with an invariant prefix of 1-3 existing directories, then `**`
+                let ds: Vec<String> = tree.nodes.iter().filter(|n| n.kind == Kind::Dir).map(|n| n.path.clone()).collect();
+                if ds.is_empty() {
+                    Under::Path
+                }
+                else {
+                    let tail = match t.below(3) {
+                        0 => vec![crate::ast::Tok::Tree { lead: false, trail: false }],
+                        1 => vec![crate::ast::Tok::Tree { lead: false, trail: true }, crate::ast::Tok::Zom { lazy: false }],
+                        _ => vec![crate::ast::Tok::Zom { lazy: false }],
+                    };
+                    Under::Glob { shape: crate::props::c02::Shape::Prefixed(t.pick(&ds), 0), glob: tail }
+                }
+            },
+            _ => gen_under(t, &tree, &Base::Abs),
+        };
         let layers = if t.chance(100) { vec![] } else { gen_layers(t, &tree, 1).into_iter().take(2).collect() };
         Case { tree, sites, under, layers, follow: t.chance(140), only: None }
     }
@@ -219,12 +237,13 @@ impl Property for C20 {
                 return Ok(());
             },
         };
-        if let Some(g) = &glob_rt {
-            if !g.prefix.is_empty() {
-                // keep the walk root = the base, so that fault sites keep their meaning
-                st.count("skipped_prefixed_glob");
-                return Ok(());
-            }
+        let prefix: String = glob_rt.as_ref().map(|g| g.prefix.clone()).unwrap_or_default();
+        if prefix.split('/').any(|c| c == "." || c == "..") {
+            st.count("skipped_dot_prefix");
+            return Ok(());
+        }
+        if !prefix.is_empty() {
+            st.count("prefixed_glob_walks");
         }
         let placements = match &case.only {
             Some(p) => vec![p.clone()],
@@ -264,8 +283,34 @@ impl Property for C20 {
                     case.layers
                 )
             };
-            // ---- reference
-            let reference = ref_walk(&base, case.follow);
+            // ---- reference (from the walk start = base joined with the glob's invariant prefix;
+            // relative paths below are relative to the base)
+            let start = if prefix.is_empty() { base.clone() } else { base.join(&prefix) };
+            match std::fs::symlink_metadata(&start) {
+                Ok(md) if md.is_dir() => {},
+                _ => {
+                    st.count("start_not_a_directory");
+                    continue;
+                },
+            }
+            let join = |rel: &str| -> String {
+                if prefix.is_empty() {
+                    rel.to_string()
+                }
+                else if rel.is_empty() {
+                    prefix.clone()
+                }
+                else {
+                    format!("{}/{}", prefix, rel)
+                }
+            };
+            let reference: Vec<RefItem> = ref_walk(&start, case.follow)
+                .into_iter()
+                .map(|i| match i {
+                    RefItem::Entry { rel, is_dir, is_link, depth } => RefItem::Entry { rel: join(&rel), is_dir, is_link, depth },
+                    RefItem::Error { rel, what } => RefItem::Error { rel: join(&rel), what },
+                })
+                .collect();
             let entries: Vec<(String, bool)> = reference
                 .iter()
                 .filter_map(|i| match i {
